@@ -33,6 +33,8 @@ def main():
     res = {"id": sid, "ok": False}
     readme = open(os.path.join(d, "README.txt")).read() if os.path.exists(os.path.join(d, "README.txt")) else ""
     # demo files: every `cp <src> <dst>` of the README whose source is in the seed directory
+    readme = re.sub(r"<[^>\n]*tree[^>\n]*>/?", "", readme)  # "<tree>/gpbft/x_test.go" -> "gpbft/x_test.go"
+    readme = re.sub(r"cd\s+&&\s*", "", readme)
     cps = re.findall(r"cp\s+(\S+)\s+(\S+)", readme)
     tests = re.findall(r"(go (?:test|run) [^\n]*)", readme)
     demo_cmd = None
@@ -45,6 +47,7 @@ def main():
         print(json.dumps(res))
         return 2
     demo_cmd = re.sub(r"\s+\(.*$", "", demo_cmd)
+    demo_cmd = demo_cmd.replace("'", "")
     subprocess.run(["git", "-C", "/repo", "worktree", "add", "--detach", wt, "HEAD"], stdout=subprocess.DEVNULL, stderr=subprocess.DEVNULL)
     try:
         placed = []
